@@ -54,6 +54,67 @@ theorem rn53_dyadic (m : ℕ) (e : ℤ) (hm : m < 2 ^ 53) :
   rw [hq, roundHalfEven_intCast, ← hq]
   field_simp
 
+/-- **a number with a significand below `2²⁴` is not changed by rounding**: `rn24 (m·2^e) = m·2^e` -/
+theorem rn24_dyadic (m : ℕ) (e : ℤ) (hm : m < 2 ^ 24) :
+    rn24 ((m : ℚ) * (2 : ℚ) ^ e) = (m : ℚ) * (2 : ℚ) ^ e := by
+  have h2 : (0 : ℚ) < (2 : ℚ) ^ e := by positivity
+  rcases Nat.eq_zero_or_pos m with h0 | hpos
+  · subst h0; simp [rn24]
+  have hmq : (0 : ℚ) < (m : ℚ) := by exact_mod_cast hpos
+  set x : ℚ := (m : ℚ) * (2 : ℚ) ^ e with hx
+  have hx0 : 0 < x := mul_pos hmq h2
+  unfold rn24
+  rw [if_neg (not_le.2 hx0)]
+  simp only
+  have hle := twoPow_binExp_le x hx0
+  rw [twoPow_eq_zpow] at hle
+  -- binExp x < 24 + e
+  have hE : binExp x - 23 ≤ e := by
+    by_contra hcon
+    have h53 : e + 24 ≤ binExp x := by omega
+    have h1 : (2 : ℚ) ^ (e + 24) ≤ (2 : ℚ) ^ (binExp x) := zpow_le_zpow_right₀ (by norm_num) h53
+    have h3 : (2 : ℚ) ^ (e + 24) = (2 : ℚ) ^ e * 2 ^ 24 := by
+      rw [zpow_add₀ (by norm_num : (2 : ℚ) ≠ 0)]; norm_num
+    have h4 : (m : ℚ) < 2 ^ 24 := by exact_mod_cast hm
+    have h5 : x < (2 : ℚ) ^ e * 2 ^ 24 := by
+      rw [hx, mul_comm]; exact mul_lt_mul_of_pos_left h4 h2
+    linarith
+  obtain ⟨d, hd⟩ := Int.eq_ofNat_of_zero_le (by omega : 0 ≤ e - (binExp x - 23))
+  rw [twoPow_eq_zpow]
+  have hulp : (0 : ℚ) < (2 : ℚ) ^ (binExp x - 23) := by positivity
+  have he : e = (binExp x - 23) + (d : ℤ) := by omega
+  have hpow : (2 : ℚ) ^ e = (2 : ℚ) ^ (binExp x - 23) * 2 ^ d := by
+    conv_lhs => rw [he]
+    rw [zpow_add₀ (by norm_num : (2 : ℚ) ≠ 0), zpow_natCast]
+  have hxe : x = (m : ℚ) * ((2 : ℚ) ^ (binExp x - 23) * 2 ^ d) := by
+    calc x = (m : ℚ) * (2 : ℚ) ^ e := hx
+      _ = _ := by rw [hpow]
+  have hq : x / (2 : ℚ) ^ (binExp x - 23) = (((m * 2 ^ d : ℕ) : ℤ) : ℚ) := by
+    rw [div_eq_iff hulp.ne']
+    push_cast
+    exact hxe.trans (by ring)
+  rw [hq, roundHalfEven_intCast, ← hq]
+  field_simp
+
+/-- float32 numbers (significand below `2²⁴`, either sign) are fixed points of `rn32` -/
+theorem rn32_fixed (m : ℕ) (e : ℤ) (hm : m < 2 ^ 24) (neg : Bool) :
+    rn32 ((if neg then -1 else 1) * ((m : ℚ) * (2 : ℚ) ^ e))
+      = (if neg then -1 else 1) * ((m : ℚ) * (2 : ℚ) ^ e) := by
+  have h0 : (0 : ℚ) ≤ (m : ℚ) * (2 : ℚ) ^ e := by positivity
+  have hfix := rn24_dyadic m e hm
+  cases neg with
+  | false =>
+    simp only [Bool.false_eq_true, if_false, one_mul]
+    unfold rn32
+    rw [if_neg (not_lt.2 h0)]
+    exact hfix
+  | true =>
+    simp only [if_true, neg_one_mul]
+    unfold rn32
+    rcases eq_or_lt_of_le h0 with h1 | h1
+    · rw [← h1]; simp [rn24]
+    · rw [if_pos (by linarith), neg_neg, hfix]
+
 /-- integers below `2⁵³` in absolute value are binary64 numbers -/
 theorem rn64_intCast (z : ℤ) (hz : |z| < 2 ^ 53) : rn64 (z : ℚ) = z := by
   unfold rn64
@@ -320,5 +381,57 @@ theorem flAnomalyOf_exact_on_integers (c n : Nat) (B : ℕ) (obs : Mat) (hc : 0 
   have := rn64_intCast (a - z) hdiff
   push_cast at this
   exact this
+
+/-! ### the `float32` comparisons of `set_window` are exact on `float32` numbers -/
+
+/-- `x` is a binary32 number (exponent range unbounded) -/
+def IsF32 (x : ℚ) : Prop :=
+  ∃ (m : ℕ) (e : ℤ) (neg : Bool), m < 2 ^ 24 ∧ x = (if neg then -1 else 1) * ((m : ℚ) * (2 : ℚ) ^ e)
+
+theorem rn32_of_isF32 (x : ℚ) (h : IsF32 x) : rn32 x = x := by
+  obtain ⟨m, e, neg, hm, rfl⟩ := h
+  exact rn32_fixed m e hm neg
+
+/-- all six bounds of the window are binary32 numbers -/
+structure Win.IsF32 (w : Win) : Prop where
+  tmin : Pyunicorn.Window.IsF32 w.tmin
+  tmax : Pyunicorn.Window.IsF32 w.tmax
+  latmin : Pyunicorn.Window.IsF32 w.latmin
+  latmax : Pyunicorn.Window.IsF32 w.latmax
+  lonmin : Pyunicorn.Window.IsF32 w.lonmin
+  lonmax : Pyunicorn.Window.IsF32 w.lonmax
+
+theorem timeMask32_eq (w : Win) (time : Vec) (hw : w.IsF32) (ht : ∀ t ∈ time, IsF32 t) :
+    timeMask32 w time = timeMask w time := by
+  unfold timeMask32 timeMask
+  rw [rn32_of_isF32 _ hw.tmin, rn32_of_isF32 _ hw.tmax]
+  split
+  · rfl
+  · exact List.map_congr_left fun t h => by rw [rn32_of_isF32 t (ht t h)]
+
+theorem spaceMask32_eq (w : Win) (lat lon : Vec) (hw : w.IsF32) (hla : ∀ t ∈ lat, IsF32 t)
+    (hlo : ∀ t ∈ lon, IsF32 t) : spaceMask32 w lat lon = spaceMask w lat lon := by
+  unfold spaceMask32 spaceMask
+  split
+  · rfl
+  · induction lat generalizing lon with
+    | nil => simp
+    | cons a as ih =>
+      cases lon with
+      | nil => simp
+      | cons b bs =>
+        simp only [List.zipWith_cons_cons]
+        rw [ih bs (fun t h => hla t (by simp [h])) (fun t h => hlo t (by simp [h]))]
+        congr 1
+        unfold inBox32 inBox
+        rw [rn32_of_isF32 _ hw.latmin, rn32_of_isF32 _ hw.latmax, rn32_of_isF32 _ hw.lonmin,
+          rn32_of_isF32 _ hw.lonmax, rn32_of_isF32 a (hla a (by simp)),
+          rn32_of_isF32 b (hlo b (by simp))]
+
+theorem applyWindow32_eq (full : View) (w : Win) (hw : w.IsF32) (ht : ∀ t ∈ full.time, IsF32 t)
+    (hla : ∀ t ∈ full.lat, IsF32 t) (hlo : ∀ t ∈ full.lon, IsF32 t) :
+    applyWindow32 full w = applyWindow full w := by
+  unfold applyWindow32 applyWindow
+  rw [timeMask32_eq w _ hw ht, spaceMask32_eq w _ _ hw hla hlo]
 
 end Pyunicorn.Window
